@@ -12,9 +12,49 @@ import (
 // Untouched parts of the real package.
 type (
 	Locker = rsync.Locker
-	Pool   = rsync.Pool
 	Map    = rsync.Map
 )
+
+// Pool is a deterministic LIFO pool inside a simulation (the real one depends on which P a
+// goroutine runs on and on GC timing); outside it delegates to the real pool.
+type Pool struct {
+	New func() interface{}
+
+	real  rsync.Pool
+	items []interface{}
+}
+
+func (p *Pool) Get() interface{} {
+	if simrt.Active() == nil {
+		if v := p.real.Get(); v != nil {
+			return v
+		}
+		if p.New != nil {
+			return p.New()
+		}
+		return nil
+	}
+	if n := len(p.items); n > 0 {
+		v := p.items[n-1]
+		p.items = p.items[:n-1]
+		return v
+	}
+	if p.New != nil {
+		return p.New()
+	}
+	return nil
+}
+
+func (p *Pool) Put(v interface{}) {
+	if v == nil {
+		return
+	}
+	if simrt.Active() == nil {
+		p.real.Put(v)
+		return
+	}
+	p.items = append(p.items, v)
+}
 
 // WouldBlock is the panic value raised when the controller (not a task) would have to block on a
 // sim primitive; invariant evaluators recover it and skip the evaluation.
